@@ -200,12 +200,50 @@ func (w *c15World) viol(kind, detail string) {
 		ident = "array-insert-next-to-tombstone:" + kind
 	case w.refTombstone && (kind == "sync-failed" || kind == "log-not-replayable" || kind == "replicas-diverged" || kind == "late-replica-differs"):
 		ident = "undo-after-purge:array-anchor:" + kind
+	case w.undoAfterPurge && w.rp.Family == "exhaustive-text" && w.textEditedByTwoActors():
+		// GC-recreate of purged text next to content another client wrote: the collected
+		// replicas and a replica that still holds the tombstones place it differently.
+		// Undo after a purge on a text only ONE client ever edited stays fully judged.
+		ident = "undo-after-purge:text-two-writers:" + kind
 	case w.undoAfterPurge && (w.rp.Family == "random" || w.rp.Family == "exhaustive-tree"):
 		// F-UNDO-AFTER-PURGE: recorded for trees (small scope) and for the mixed random
 		// family; the exhaustive text / array / object families stay fully judged
 		ident = "undo-after-purge:" + w.rp.Family + ":" + kind
 	}
 	w.res.Violate(kind, fmt.Sprintf("%s\n(family %s, gc=%v, histories cleared=%v) history: %s", detail, w.rp.Family, w.rp.GC, w.rp.Clear, strings.Join(prog, "; ")), ident, rp)
+}
+
+// textEditedByTwoActors: did two different clients write to a Text (pushed or not)?
+func (w *c15World) textEditedByTwoActors() bool {
+	actors := map[string]map[string]bool{}
+	note := func(cs []*change.Change) {
+		for _, c := range cs {
+			for _, op := range c.Operations() {
+				switch op.(type) {
+				case *operations.Edit, *operations.Style:
+					k := op.ParentCreatedAt().Key()
+					if actors[k] == nil {
+						actors[k] = map[string]bool{}
+					}
+					actors[k][c.ID().ActorID().String()] = true
+				}
+			}
+		}
+	}
+	for _, raw := range w.log {
+		if cs, err := decodePack(raw); err == nil {
+			note(cs)
+		}
+	}
+	for _, n := range w.names {
+		note(w.docs[n].CreateChangePack().Changes)
+	}
+	for _, a := range actors {
+		if len(a) >= 2 {
+			return true
+		}
+	}
+	return false
 }
 
 func (w *c15World) sync(n string) {
@@ -298,6 +336,16 @@ func (w *c15World) do(st c15Step) bool {
 	d := w.docs[st.W]
 	switch st.T {
 	case "edit":
+		if w.rp.GC && strings.HasPrefix(st.E.Op, "arr.") {
+			// the same precondition the generator of C01-C03 fences (F-RGA-PURGE): detected,
+			// not vetoed - the exhaustive families enumerate every edit
+			var v Vetoed
+			e := *st.E
+			if !makeGuardDoc(Guards{InsertBeforeTombstone: true}, &v)(d, &e) {
+				w.rgaRisk = true
+				w.res.AddStat("array_insertions_next_to_tombstone", 1)
+			}
+		}
 		if err := safeUpdate(d, []gen.Edit{*st.E}); err != nil {
 			if strings.HasPrefix(err.Error(), "PANIC") {
 				w.steps = append(w.steps, st)
@@ -334,6 +382,10 @@ func (w *c15World) do(st c15Step) bool {
 			w.viol("clone-differs-from-root", fmt.Sprintf("after %s on %s: Root() shows %s but the document is %s", st.T, st.W, a, b))
 			return false
 		}
+		w.checkIndexes("after " + st.T + " on " + st.W)
+		if w.bad {
+			return false
+		}
 		if w.rp.GC && c15RefersToTombstone(d) {
 			w.refTombstone = true
 			w.res.AddStat("undo_array_operation_refers_to_tombstone", 1)
@@ -347,7 +399,9 @@ func (w *c15World) do(st c15Step) bool {
 	case "sync":
 		w.steps = append(w.steps, st)
 		w.sync(st.W)
+		w.checkIndexes("after sync of " + st.W)
 	case "lead":
+		defer w.checkIndexes("after lead")
 		// st.W pushes, everybody else pulls and acknowledges, st.W syncs again: st.W has
 		// now collected what the others have seen, the others still hold the tombstones
 		w.steps = append(w.steps, st)
@@ -362,6 +416,7 @@ func (w *c15World) do(st c15Step) bool {
 		w.sync(st.W)
 		w.sync(st.W)
 	case "round":
+		defer w.checkIndexes("after a round")
 		// everybody syncs until nothing is pending: all replicas have seen everything
 		// and (collection on) have purged what the common minimum vector allows
 		w.steps = append(w.steps, st)
@@ -372,6 +427,49 @@ func (w *c15World) do(st c15Step) bool {
 		}
 	}
 	return !w.bad
+}
+
+// checkIndexes: the index structures of every Text must agree with its node chain after
+// every step (a stale weight is invisible in Marshal() until an index-based edit hits it).
+func (w *c15World) checkIndexes(where string) {
+	if w.bad {
+		return
+	}
+	for _, n := range w.names {
+		bad := ""
+		var walk func(e crdt.Element)
+		walk = func(e crdt.Element) {
+			switch v := e.(type) {
+			case *crdt.Object:
+				for _, m := range v.Members() {
+					walk(m)
+				}
+			case *crdt.Array:
+				for _, m := range v.Elements() {
+					walk(m)
+				}
+			case *crdt.Text:
+				func() {
+					defer func() {
+						if x := recover(); x != nil {
+							bad = fmt.Sprintf("CheckWeight panicked: %v", x)
+						}
+					}()
+					if !v.CheckWeight() {
+						bad = "the splay tree's weights disagree with the node chain: " + v.ToTestString()
+					} else if p := textChainProblem(v); p != "" {
+						bad = p
+					}
+				}()
+			}
+		}
+		walk(w.docs[n].RootObject())
+		if bad != "" {
+			w.viol("text-index-corrupt", fmt.Sprintf("%s, replica %s: %s", where, n, bad))
+			return
+		}
+		w.res.AddStat("text_index_checks", 1)
+	}
 }
 
 // finish runs the closing rounds and the oracle.
